@@ -51,7 +51,7 @@ def _job(args):
     key = tuple(mods)
     try:
         if key not in _EX:
-            _EX[key] = make_explorer(list(mods), **opts)
+            _EX[key] = make_explorer(list(mods), **{k: v for k, v in opts.items() if k != 'wall_guard_s'})
         ex = _EX[key]
         return ex.verify(cname, case)
     except Exception as e:
@@ -61,7 +61,7 @@ def _job(args):
 
 def run(contract_modules, names=None, procs=None, opts=None):
     opts = opts or {}
-    ex = make_explorer(contract_modules, **opts)
+    ex = make_explorer(contract_modules, **{k: v for k, v in opts.items() if k != 'wall_guard_s'})
     jobs = []
     for cname, c in ex.contracts.items():
         if names and cname not in names and c.short not in names:
@@ -79,10 +79,19 @@ def run(contract_modules, names=None, procs=None, opts=None):
     deadline = time.time() + budget * max(1, -(-len(jobs) // procs)) + 600
     pool = mp.get_context('spawn').Pool(procs, maxtasksperchild=8)
     reports = []
+    # quick-tier wall guard (safety net): what has not finished by then is reported as not run, never as a verdict
+    guard = opts.get('wall_guard_s')
+    guard_at = (time.time() + guard) if guard else None
     try:
         asyncs = [(j, pool.apply_async(_job, (j,))) for j in jobs]
         for j, a in asyncs:
             try:
+                if guard_at is not None:
+                    try:
+                        reports.append(a.get(timeout=max(0.05, guard_at - time.time())))
+                    except mp.TimeoutError:
+                        reports.append({'contract': j[1], 'case': str(j[2]), 'skipped': f'not finished within the quick-tier wall guard ({guard} s)'})
+                    continue
                 reports.append(a.get(timeout=max(1.0, deadline - time.time())))
             except mp.TimeoutError:
                 reports.append({'contract': j[1], 'case': str(j[2]), 'crash': 'worker timed out / died (no result before the deadline)',
